@@ -4,10 +4,14 @@
                            answer: ok | bad <failing parts …>
     reflexive <L>          does every literal set containing both trunk constraints of one sentence close (C10)
                            answer: ok | bad
+    saturated <L> ## <node> ; <node> ; …     is this (open) branch saturated in the sense of Ptx/Tab/Saturated.lean
+                           answer: ok | quit | unsat <clause …> | <clause …> …   (first 6 clauses, ' | ' separated)
 -/
 import Ptx.Wire
 import Ptx.Sem.Extends
 import Ptx.Tab.Structural
+import Ptx.Tab.Saturated
+import Ptx.Drv.Tab
 import Ptx.Sem.Sem
 import Ptx.Gen.All
 namespace Ptx.Drv.Sat
@@ -22,6 +26,16 @@ def handle (ts : List String) : Option String :=
           if L'.sem.embedsB L.sem then some "ok"
           else some ("bad " ++ " ".intercalate (L'.sem.embedsBad L.sem))
       | _, _ => some "err:unknown-logic"
+  | "saturated" :: l :: "##" :: rest =>
+      match Gen.byName l, Drv.Tab.parseNodes rest with
+      | some L, some nodes =>
+          let b : Branch := { nodes := nodes }
+          if b.hasQuit then some "quit" else
+          match L.unsaturated b with
+          | [] => some "ok"
+          | ms => some ("unsat " ++ " | ".intercalate (ms.take 6))
+      | none, _ => some "err:unknown-logic"
+      | _, none => some "err:wire"
   | ["reflexive", l] =>
       match Gen.byName l with
       | some L => some (if L.closesTrunkPairB then "ok" else "bad")
